@@ -400,6 +400,13 @@ pub fn catalogue(f: &Frame, rng: &mut Rng) -> Vec<Mal> {
         s.extend_from_slice(&b[hdr..]);
         s.push(0);
         out.push(Mal { m: "rl_long", site: "remaining length + 1 (one trailing byte)".into(), bytes: s });
+        // the header alone with remaining length 0, and with the body still behind it
+        if bl >= 1 {
+            out.push(Mal { m: "rl_zero", site: "remaining length 0, nothing follows".into(), bytes: vec![f.ctl, 0] });
+            let mut s = vec![f.ctl, 0];
+            s.extend_from_slice(&b[hdr..]);
+            out.push(Mal { m: "rl_zero", site: "remaining length 0, body follows".into(), bytes: s });
+        }
     }
     for i in 0..f.body.len() {
         match &f.body[i] {
